@@ -25,7 +25,7 @@ CHECKS = {
  "C20": e1("bounded-exhaustive enumeration of printable expression trees (parser normal form) x whitespace variants; parse(unparse(e)) structural equivalence + span containment/coverage oracle",
   "All normal-form expression trees up to depth 3 (4 in thorough, pruned menu) over 129 literals of every printable kind and 13 contexts, each printed, re-parsed (with every variant of 1-2 extra spaces at up to 3 token boundaries) and compared structurally; every node span must lie within its parent and cover its tokens.",
   "Trees outside the parser's normal form and keys that would need quoting are outside the printable subset; lat/lng literal spans are a recorded known finding (repair would need edits to existing test goldens)."),
- "C28": e3("stateless model checking of the real streaming code under a controlled scheduler: all interleavings up to a preemption bound (unbounded where exploration closes) with happens-before caching; deadlock = hang",
+ "C28": e3("stateless model checking of the real streaming code under a controlled scheduler: all interleavings up to a preemption bound (unbounded where exploration closes) with happens-before caching; deadlock = hang + auxiliary free-running race-detector pass over the same scenario bodies (un-rewritten tree)",
   "The five streaming mechanisms (Uint64Map.EachItem, MemoryFeatureSource.Read, world EachFeature over eachIngestFeature, EachModifiedTag, ReadPBFWithOptions) run with their real goroutines/channels/selects/locks/wait-groups/contexts routed through the scheduler by a build-time source rewriter; for every scenario (items, goroutines, failing position, fail-once/always) every schedule is executed and checked: an error is returned, the call returns (no deadlock), no callback after return, and at most goroutines+capacity further callbacks begin after the first failure in executions that never decline a ready cancellation case.",
   "Code between synchronisation operations runs atomically (data-race freedom assumed; sync/atomic not a scheduling point); map ranges use one fixed order; preemption bound 2 (quick) / 3 (thorough) where the unbounded exploration does not close; deadlines never fire."),
 }
@@ -52,10 +52,10 @@ CHECKS.update({
  "C30": e1("bounded-exhaustive enumeration of street networks (all subsets of an 11/14-way menu over 6 nodes) x origins x limits x weights; Bellman-Ford over World.Traverse as oracle",
   "For every network subset (shared nodes, loops, one-way in both directions, unusable highways, weight factors), every origin, 5 limits and 2-5 weight functions on basic and compact worlds: every point under the limit is reported, reported distances equal true shortest distances (1e-9), every route is a chain of usable segments from the origin with that cost, ExpandSearchTo is exact for its destination.",
   "A point exactly at the limit may or may not be reported; ComputeAccessibility compared only when weights are metres; positive weight factors (Dijkstra precondition)."),
- "C25": e3("stateless model checking of the real map-parallel collection (dispatcher, workers, errgroup, consumer) under the controlled scheduler against a sequential lazy-map reference",
-  "Every interleaving (preemption bound 2/3, unbounded where exploration closes) of map-parallel over 0-3 (4-5 for the hold-two-results shape; 0-5 thorough) items, 2-3 cores, a failing item or failing input iterator at every position: the yielded sequence is map's, or a prefix of it followed by the error; the consumer always finishes.",
+ "C25": e3("stateless model checking of the real map-parallel collection (dispatcher, workers, errgroup, consumer) under the controlled scheduler against a sequential lazy-map reference, called directly with native functions and through the VM with lambdas, closures and partial applications + auxiliary free-running race-detector pass over the same scenario bodies (un-rewritten tree)",
+  "Every interleaving (preemption bound 2/3, unbounded where exploration closes) of map-parallel over 0-3 (4-5 for the hold-two-results shape; 0-5 thorough) items, 2-3 cores, a failing item or failing input iterator at every position: the yielded sequence is map's, or a prefix of it followed by the error; the consumer always finishes. VM family: whole expressions through api.Evaluate with Cores 2 (thorough 3) — lambda, closure over an enclosing lambda's variable, partial application, failing lambda, nested map-parallel — yield what the same expression with map yields.",
   "Mapped function yields once per call; consumer drains to the end; atomic steps between synchronisation operations."),
- "C40": e3("stateless model checking of the real gRPC service methods called from 2-3 client goroutines under the controlled scheduler; outcome must equal one of the serial orders (all permutations run on a fresh service)",
+ "C40": e3("stateless model checking of the real gRPC service methods called from 2-3 client goroutines under the controlled scheduler; outcome must equal one of the serial orders (all permutations run on a fresh service) + auxiliary free-running race-detector pass over the same scenario bodies (un-rewritten tree)",
   "45 request pairs (thorough: +84 triples) over read-only, unconditional, read-dependent, other-world, add-world-with-change, delete-world, list-worlds and failing requests: every interleaving at the RWMutex/mutex points; no deadlock; (responses, final worlds by ID with tags) equals a serial outcome. Non-serialisable outcomes are classified by an explicit simulation of the split evaluate/apply protocol.",
   "Known finding: write skew between read-dependent changes (design-level; recorded). One request per client; lock-free code between lock operations is atomic."),
 })
@@ -123,8 +123,8 @@ CHECKS.update({
  "C35": e3("stateless model checking of 2-3 concurrent reader scripts on compact/overlay/basic worlds and of 2-goroutine builds under the controlled scheduler; auxiliary free-running race-detector pass",
   "Every interleaving at the world's lock points (feature cache, polyline cache, area geometry): each script's result equals its sequential result; no deadlock or panic in readers or builders; built world equals the 1-core world. A data-race report from the auxiliary -race binary (un-rewritten tree) is raised as a witness; its silence is sampling.",
   "Race freedom itself is outside what a cooperative scheduler can decide (DESIGN 1.1): unsynchronised accesses are only witnessed by the race-detector pass. Builds: basic builds complete preemption bound 1 (thorough 2) with deviations confined to one fork/join phase, compact builds deviation bound 0 (thorough 1); beyond that capped (exhaustive:false with the bound reached)."),
- "C36": e3("exhaustive over configurations (cores 1..16 x sources x builders, native) + stateless model checking under the controlled scheduler of 2-core builds (bounded) and of the compact builder's shared Validator driven by 2-3 goroutines (every interleaving, no bound)",
-  "Every core count 2..16 on every source for the in-memory and compact builders gives a world whose dump equals the 1-core world; under the scheduler every explored interleaving of a 2-core build gives that dump too, without deadlock or panic; for every ordered partition of up to 5 of 10 paths/areas over 2-3 goroutines and every interleaving, the compact Validator hands back for emission exactly the features a single goroutine gets, each once.",
+ "C36": e3("exhaustive over configurations (cores 1..16 x sources x builders, native) + stateless model checking under the controlled scheduler of 2-core builds (bounded) and of the compact builder's shared Validator driven by 2-3 goroutines (every interleaving, no bound) and of the builders fed by every order-preserving 2-goroutine partition of each source",
+  "Every core count 2..16 on every source for the in-memory and compact builders gives a world whose dump equals the 1-core world; under the scheduler every explored interleaving of a 2-core build gives that dump too, without deadlock or panic; for every ordered partition of up to 5 of 10 paths/areas over 2-3 goroutines and every interleaving, the compact Validator hands back for emission exactly the features a single goroutine gets, each once; every order-preserving split of each source's features over 2 delivering goroutines (504 scenarios quick) builds the 1-core world for both builders (basic: preemption bound 1/2 within one phase; compact: deviation bound 0/1).",
   "The schedule space of a whole build is large (90 choice points per basic build, 2900 per compact build): basic builds complete preemption bound 2 (thorough 3) with deviations confined to one fork/join phase, compact builds deviation bound 0 (thorough 1); the evidence reports the bound each scenario completed and exhaustive:false where a cap was hit."),
  "C37": e2("bounded-exhaustive enumeration of menu sources with invalid variants x 5 build modes (3k/27k worlds x orders) + the C13 state graph; independent validator over EachFeature",
   "After every build mode and at every state of the edit search (including after accepted replacements) every path has >=2 resolvable points, closed paths are valid counter-clockwise loops and areas refer only to existing closed paths of >=3 points.",
